@@ -43,7 +43,7 @@ PROP = {
             "a safe `Read` implementation cannot write beyond the buffer it is given; it can only LIE about the count -- which is what the over-reporting cases do",
             "usize is 32 or 64 bits (`usizeBound`, `ovf` are parameters of the theorems; the lossless-cast tags assume usize <= 64 bits)",
         ],
-        "rule": "guards correspondence: the C03 guard cases plus, for every 3rd (quick) / every (thorough) corpus input, a lying reader at every read call 1..4 with excess 1..8, usize::MAX/2, to-size and to-size+1, against the parser alone and the chunker. Implementation-level, in-process under catch_unwind, for EVERY input of the shared corpus (all four formats' valid / mutated / truncated / spliced streams, every prefix of small documents, token sequences, adversarial first bytes, random bytes) and 80 / 600 generated multi-document YAML streams (0..40 documents, every separator style, a quarter malformed), taken as YAML explicitly and by detection, plus UTF-16/UTF-32 re-encodings (with and without BOM) of the textual ones: (a) reads of 1,2,3,7,64,8191,8192,8193 bytes and the slice path: never a panic; (b) a persistently failing reader at EVERY offset 0..=len (every 2nd input up to 400 bytes / every input up to 1200 bytes): Err whenever the fault was raised, with the reader's text unless the input is itself erroneous, never a panic; (c) a reader over-reporting by 1..8 and by usize::MAX/2 at every read call (<= 6) of a whole translation: when the report exceeds the buffer the outcome is an error or an unwinding panic, never success; (d) the chunker advanced k = 0..docs+1 items and dropped, and detect_reader (which abandons the chunker after one document): returns normally with the expected number of documents. Thorough tier additionally: miri/tests/ub.rs (about 330 cases of the same kinds) under Miri. A case is non-trivial when the translation succeeded (a), the fault was raised (b), the report exceeded the buffer (c), the stream has documents (d); distinct = distinct case text.",
+        "rule": "guards correspondence: the C03 guard cases plus, for every 3rd (quick) / every (thorough) corpus input, a lying reader at every read call 1..4 with excess 1..8, usize::MAX/2, to-size and to-size+1, against the parser alone and the chunker (one correspondence case per distinct (buffer size, reported, written) triple). Implementation-level, in-process under catch_unwind, for EVERY input of the shared corpus (all four formats' valid / mutated / truncated / spliced streams, every prefix of small documents, token sequences, adversarial first bytes, random bytes) and 80 / 600 generated multi-document YAML streams (0..40 documents, every separator style, a quarter malformed), taken as YAML explicitly and by detection, plus UTF-16/UTF-32 re-encodings (with and without BOM) of the textual ones: (a) reads of 1,2,3,7,64,8191,8192,8193 bytes and the slice path: never a panic; (b) a persistently failing reader at EVERY offset 0..=len (every 2nd input up to 400 bytes / every input up to 1200 bytes): Err whenever the fault was raised, with the reader's text unless the input is itself erroneous, never a panic; (c) a reader over-reporting by 1..8 and by usize::MAX/2 at every read call (<= 6) of a whole translation: when the report exceeds the buffer the outcome is an error or an unwinding panic, never success; (d) the chunker advanced k = 0..docs+1 items and dropped, and detect_reader (which abandons the chunker after one document): returns normally with the expected number of documents. Thorough tier additionally: miri/tests/ub.rs (about 330 cases of the same kinds) under Miri. A case is non-trivial when the translation succeeded (a), the fault was raised (b), the report exceeded the buffer (c), the stream has documents (d); distinct = distinct case text.",
         "hypotheses": [
             "LibyamlMemorySafe(unsafe-libyaml 0.2.11) -- NOT proved; searched by Miri / AddressSanitizer on miri/tests/ub.rs in the thorough tier",
             "CallbackArgsValid(libyaml passes a buffer of buffer_size writable bytes and a valid size_read) -- NOT proved; same search",
